@@ -239,6 +239,15 @@ def cleanup_consts():
         raise TranslatorError("_clean_up_state: no age test")
     out.update({"cleanup_age_s": age, "cleanup_cmp_gt": cmp_gt, "cleanup_needs_done": needs_done,
                 "cleanup_needs_not_activated": needs_na})
+    # step 3b: removed uids are dropped from every remaining child list and from open scopes
+    src_fn = ast.unparse(fn)
+    out["cleanup_purges_children"] = ("flow_state.child_flow_uids[:] = [uid for uid in flow_state.child_flow_uids if uid not in removed_uids]" in src_fn)
+    out["cleanup_purges_scopes"] = ("scope_flow_uids[:] = [uid for uid in scope_flow_uids if uid not in removed_uids]" in src_fn
+                                    and "for scope_flow_uids, _ in flow_state.scopes.values()" in src_fn)
+    # the action table is rebuilt from the action_uids of the remaining flow states
+    out["cleanup_actions_by_reference"] = ("for action_uid in flow_state.action_uids" in src_fn
+                                           and "new_action_dict.update({action_uid: state.actions[action_uid]})" in src_fn
+                                           and "state.actions = new_action_dict" in src_fn)
     done = TC._func(tree, "_is_done_flow")
     sts = sorted({n.attr for n in ast.walk(done) if isinstance(n, ast.Attribute) and isinstance(n.value, ast.Name)
                   and n.value.id == "FlowStatus"})
@@ -286,6 +295,9 @@ def emit():
     L.append(f"Definition cleanup_needs_not_activated : bool := {coq_bool(k['cleanup_needs_not_activated'])}.")
     L.append(f"Definition done_statuses : list string := {coq_str_list(k['done_statuses'])}.")
     L.append(f"Definition cleanup_before_loop : bool := {coq_bool(k['cleanup_before_loop'])}.")
+    L.append(f"Definition cleanup_purges_children : bool := {coq_bool(k['cleanup_purges_children'])}.")
+    L.append(f"Definition cleanup_purges_scopes : bool := {coq_bool(k['cleanup_purges_scopes'])}.")
+    L.append(f"Definition cleanup_actions_by_reference : bool := {coq_bool(k['cleanup_actions_by_reference'])}.")
     return "\n".join(L) + "\n"
 
 
